@@ -232,9 +232,27 @@ def check_component_in_dependency_head(ctx, rng, ids):
     if rng.random() < 0.5:
         head.reverse()
 
+    late_change = rng.random() < 0.5
+
     def doc(head_):
         outer = {"k": "dep", "name": "outer", "version": "1.0", "head": head_}
         body = gen.TAG("div", {"k": "text", "s": "x"}, outer)
+        if late_change and head_ is head:
+            # the component is given its final content only after the dependency (and the page) were put together: what is
+            # rendered is what the component expands to when the document is rendered
+            import copy as _copy
+
+            draft = _copy.deepcopy(body)
+            for x_ in gen.walk(draft["c"][1]["head"][head.index(comp)]):
+                if x_["k"] == "dep":
+                    x_["version"] = "0.1"
+                if x_["k"] == "tag":
+                    x_["attrs"] = [["rel", {"t": "str", "s": "draft"}]]
+            root = rng_choice(draft)
+            dep_ = [c for t_ in _live_tags(root) for c in t_.children if isinstance(c, ht.HTMLDependency) and c.name == "outer"][0]
+            live_comp = [c for c in dep_.head if isinstance(c, gen.TFObj)][0]
+            live_comp.payload_recipes = comp["c"]
+            return ht.HTMLDocument(root)
         root = rng_choice(body)
         return ht.HTMLDocument(root)
 
@@ -247,7 +265,7 @@ def check_component_in_dependency_head(ctx, rng, ids):
     expanded = []
     for c in head:
         expanded.extend(expand(c))
-    wit = {"head": head, "root_shape": shape}
+    wit = {"head": head, "root_shape": shape, "component_filled_in_after_construction": late_change}
     got = doc(head).render()
     want = doc(expanded).render()
     ctx.count("oracle.component_in_dependency_head")
@@ -261,6 +279,42 @@ def check_component_in_dependency_head(ctx, rng, ids):
         return False
     if inner["name"] not in [n for n, _ in names(got)]:
         ctx.violation("expansion-deps-differ", "the dependency carried by the expansion of a component inside a dependency's head content is not reported", dict(wit, got=names(got)))
+        return False
+    return True
+
+
+def check_component_as_jsx_prop(ctx, rng, ids):
+    """A component given as a PROP (or child) of a JSX component renders as its expansion there too, and the dependency the
+    expansion carries is reported."""
+    from ..loader import jsx_mod
+
+    Card = jsx_mod.jsx_tag_create("Card")
+    dep_r = {"k": "dep", "name": "icons" + str(rng.randrange(3)), "version": "1.%d" % rng.randrange(3), "script": [{"src": "icons.js"}]}
+    payload = gen.TAG(rng.choice(["span", "div", "i"]), {"k": "text", "s": ids.next("t")}, dep_r, ws=False, attrs=[["class", {"t": "str", "s": "icon"}]])
+    comp_r = {"k": "tf", "ret": "one", "c": [payload]}
+    # (components inside list- or dict-valued props are data of the JSX component, not positions of the tree: the unchanged library
+    #  does not expand them, see the C20 notes in DESIGN section 7)
+    where = rng.choice(["prop", "prop", "child", "prop_in_nested"])
+
+    def make(x):
+        if where == "prop":
+            return Card("body", title=x)
+        if where == "child":
+            return Card("body", x, title="t")
+        return Card("body", footer=Card("inner", icon=x))
+
+    a, b = make(gen.build(comp_r)), make(gen.build(expand(comp_r)[0]))
+    wit = {"component": comp_r, "where": where}
+    ctx.count("oracle.component_as_jsx_prop")
+    sa, sb = str(a), str(b)
+    if sa != sb:
+        ctx.violation("expansion-html-differs", "a component given to a JSX component (%s) is not rendered as its expansion" % where, dict(wit, got=sa[-700:], want=sb[-700:]))
+        return False
+    da, db = ht.HTMLDocument(ht.div(a)).render(), ht.HTMLDocument(ht.div(b)).render()
+    na, nb = [(d.name, str(d.version)) for d in da["dependencies"]], [(d.name, str(d.version)) for d in db["dependencies"]]
+    if da["html"] != db["html"] or na != nb or dep_r["name"] not in [n for n, _ in na]:
+        ctx.violation("expansion-deps-differ", "dependencies carried by the expansion of a component given to a JSX component (%s) are not reported as for the expanded tree" % where,
+                      dict(wit, got=na, want=nb))
         return False
     return True
 
@@ -462,6 +516,7 @@ def _run(ctx):
     for i in range(ctx.budget(60, 6000)):
         ids = lg.Ids()
         ctx.guard(check_component_in_dependency_head, ctx, rng, ids, witness={"what": "component in dependency head", "i": i})
+        ctx.guard(check_component_as_jsx_prop, ctx, rng, ids, witness={"what": "component as JSX prop", "i": i})
     ex = gen.TAG("div", {"k": "text", "s": "a"}, {"k": "tf", "ret": "list", "c": [{"k": "text", "s": "x"}, gen.TAG("b", ws=False)]}, {"k": "tf", "ret": "list", "c": []})
     ctx.sample({"recipe": ex, "output": gen.build(ex).render()["html"]})
     # 2. random trees
